@@ -71,6 +71,57 @@ fn run_one(log: &mut Log, tag: &str, text: &[u8], alpha: &[u8], k: u32, s: usize
     }
 }
 
+/// Closed-form family: the unary text A^(n-1)$ too long to log (n > 2^24). Its suffix array n-1, ..., 0
+/// is built without running SA-IS; BWT, less, Occ, the sampled suffix array and the FM index are the
+/// real code. Patterns A^m; the interval is resolved through the sampled array on selected rows only.
+fn run_unary(log: &mut Log, tag: &str, n: usize, k: u32, s: usize, ms: &[usize]) {
+    if !log.begin(tag, json!({"kind": "unary", "n": n, "a": b'A', "sent": b'$', "k": k, "s": s})) {
+        return;
+    }
+    let mut text = vec![b'A'; n];
+    text[n - 1] = b'$';
+    let sa: Vec<usize> = (0..n).rev().collect();
+    let alphabet = Alphabet::new(b"$A");
+    let mut built = None;
+    let r = log.call("new_unary", json!({}), || {
+        let b = bwt(&text, &sa);
+        let l = less(&b, &alphabet);
+        let o = Occ::new(&b, k, &alphabet);
+        let ssa = sa.sample(&text, b.clone(), l.clone(), o.clone(), s);
+        let len = ssa.len();
+        built = Some((b, l, o, ssa));
+        json!({ "n": len })
+    });
+    if r["st"] != "ok" {
+        return;
+    }
+    let (b, l, o, ssa) = built.unwrap();
+    let fm = FMIndex::new(&b, &l, &o);
+    for &m in ms {
+        let p = vec![b'A'; m];
+        log.call("search_unary", json!({ "m": m }), || {
+            let (kind, iv, len) = match fm.backward_search(p.iter()) {
+                BackwardSearchResult::Complete(iv) => (2, iv, p.len()),
+                BackwardSearchResult::Partial(iv, l) => (1, iv, l),
+                BackwardSearchResult::Absent => (0, Interval { lower: 0, upper: 0 }, 0),
+            };
+            // rows of the interval to resolve: both ends, around 2^24, a stride through the rest
+            let mut rows: Vec<usize> = vec![];
+            if kind != 0 && iv.upper <= n && iv.lower < iv.upper {
+                let (lo, up) = (iv.lower, iv.upper);
+                rows.extend(lo..(lo + 60).min(up));
+                rows.extend(up.saturating_sub(60).max(lo)..up);
+                let mid = 1usize << 24;
+                rows.extend((mid.saturating_sub(40)).max(lo)..(mid + 40).min(up));
+                rows.extend((lo..up).step_by(209_459));
+            }
+            let vals: Vec<usize> = rows.iter().map(|&r| Interval { lower: r, upper: r + 1 }.occ(&ssa)[0]).collect();
+            json!({"kind": kind, "lower": iv.lower, "upper": iv.upper, "len": len,
+                   "rows": usizes(&rows), "vals": usizes(&vals)})
+        });
+    }
+}
+
 fn all_strings_upto(alpha: &[u8], minlen: usize, maxlen: usize) -> Vec<Vec<u8>> {
     let mut out = vec![];
     let mut cur: Vec<Vec<u8>> = vec![vec![]];
@@ -302,6 +353,68 @@ pub fn drive(log: &mut Log) {
                 }
             }
         }
+    }
+
+    // (d) unary / periodic texts of 1000..3000 symbols under Occ rates beyond 256: the BWT has runs of
+    //     hundreds of equal symbols, so every stretch counted by Occ::get can hold 256 and more hits
+    let shapes: Vec<(usize, usize, u32, usize)> = if th {
+        vec![(0, 2000, 1024, 0), (1, 2400, 512, 0), (2, 1800, 600, 5), (3, 2000, 257, 2), (0, 3000, 1100, 3),
+             (1, 1200, 300, 0), (4, 2600, 700, 0), (2, 1000, 514, 0), (3, 1500, 1024, 0), (0, 1300, 257, 4)]
+    } else {
+        vec![(0, 2000, 1024, 0), (1, 2400, 512, 0), (2, 1800, 600, 5), (3, 2000, 257, 2), (4, 1500, 1100, 0)]
+    };
+    for &(shape, n, k, sr) in &shapes {
+        case += 1;
+        if !log.mine(case) {
+            continue;
+        }
+        let mut rng = Rng::new(seed, 21, case);
+        let unit: &[u8] = match shape {
+            0 => b"A",
+            1 => b"ACGT",
+            2 => b"AC",
+            3 => b"AAC",
+            _ => b"A",
+        };
+        let mut text: Vec<u8> = (0..n - 1).map(|i| unit[i % unit.len()]).collect();
+        if shape == 4 {
+            for i in (n - 1) / 2..n - 1 {
+                text[i] = b'C'; // A^m C^m
+            }
+        }
+        text.push(b'$');
+        let mut pats: Vec<Vec<u8>> = vec![vec![b'A'], vec![b'C'], vec![b'G'], b"AA".to_vec(), b"CA".to_vec(), b"GTAC".to_vec(),
+                                          b"AC".to_vec(), b"CC".to_vec()];
+        for _ in 0..4 {
+            let a = rng.below((n - 1) as u64) as usize;
+            let l = rng.range(2, 40) as usize;
+            pats.push(text[a..(a + l).min(n - 1)].to_vec());
+        }
+        let mut q = vec![b'T'];
+        q.extend_from_slice(&text[5..15]);
+        pats.push(q);
+        pats.retain(|p| !p.is_empty());
+        run_one(log, "long", &text, b"$ACGT", k, sr, (case % 3) as u8, &pats);
+        log.oblige("bwt_run_ge_256_occ_rate_gt_256");
+    }
+
+    // (e) closed-form unary family beyond 2^24 rows, positions through the sampled suffix array
+    let un: &[(usize, u32, usize)] = if th {
+        &[((1 << 24) + 1, 128, 32), ((1 << 24) + 1, 3, 64), ((1 << 24) + 1, 65, 2), ((1 << 24) + 2, 128, 3)]
+    } else {
+        &[((1 << 24) + 1, 128, 32)]
+    };
+    for &(n, k, s) in un {
+        case += 1;
+        if !log.mine(case) {
+            continue;
+        }
+        run_unary(log, "unary", n, k, s, &[1, 2, 1000, n - 1, n]);
+        log.oblige("text_longer_than_2p24_sampled_sa");
+    }
+    case += 1;
+    if log.mine(case) {
+        run_unary(log, "unary", 500, 3, 4, &[1, 7, 499, 500, 600]);
     }
 }
 
